@@ -10,14 +10,17 @@ class Proxy:
 
     nested = True      # a module run through a proxy does not run other modules through proxies again
 
-    def __init__(self, ctx, select, as_rule, exclude=(), only=()):
+    def __init__(self, ctx, select, as_rule, exclude=(), only=(), constructs=()):
         self._ctx, self._sel, self._as, self._ex, self._only = ctx, select, as_rule, tuple(exclude), tuple(only)
+        self._cons = tuple(constructs)       # forward only the instances whose construct text contains one of these
 
     def __getattr__(self, name):
         return getattr(self._ctx, name)
 
-    def _on(self, rule, key=""):
+    def _on(self, rule, key="", construct=None):
         # `exclude`: instances on functions that are not part of the borrowing property (matched on the function key)
+        if self._cons and not any(x in (construct if construct is not None else (key or "")) for x in self._cons):
+            return False
         return any(rule == s or rule.startswith(s) for s in self._sel) and not any(x in (key or "") for x in self._ex) and \
             (not self._only or any(x in (key or "") for x in self._only))
 
@@ -26,23 +29,23 @@ class Proxy:
             self._ctx.ok(self._as, "[%s] %s" % (rule, key), detail, loc)
 
     def violation(self, rule, fn, construct, msg, loc=None, path=None):
-        if self._on(rule, fn):
+        if self._on(rule, fn, construct):
             self._ctx.violation(self._as, fn, "[%s] %s" % (rule, construct), msg, loc, path)
 
     def check(self, cond, rule, fn, construct, msg, detail="", loc=None, path=None):
-        if self._on(rule, fn):
+        if self._on(rule, fn, construct):
             self._ctx.check(cond, self._as, fn, "[%s] %s" % (rule, construct), msg, detail, loc, path)
 
     def missing(self, rule, what):
-        if self._on(rule):
+        if any(rule == s_ or rule.startswith(s_) for s_ in self._sel) and not self._only:      # (an anchor of a selected rule is gone)
             self._ctx.missing(self._as, what)
 
     def unrecognised(self, rule, fn, what, msg):
-        if self._on(rule, fn):
+        if self._on(rule, fn, what):
             self._ctx.unrecognised(self._as, fn, "[%s] %s" % (rule, what), msg)
 
     def floor(self, rule, what, n, least):
-        if self._on(rule) and not self._only:
+        if self._on(rule) and not self._only and not self._cons:
             self._ctx.floor(self._as, "[%s] %s" % (rule, what), n, least)
 
 
